@@ -8,6 +8,7 @@
 #include <blocc/exception_runtime.h>
 #include <string>
 #include <typeinfo>
+#include <vector>
 
 namespace sim {
 
@@ -59,4 +60,48 @@ inline Outcome run_exe(bloc::Context& ctx, bloc::Executable* exe) {
   return o;
 }
 
+} // namespace sim
+
+// Statement-at-a-time driver modelled on the interactive loop of apps/cli_parser.cpp:
+// parse one statement, execute its chain, repeat. Stops at the first parse error (after
+// Parser::clear(), as the CLI does) or at the first runtime error.
+namespace sim {
+struct InteractiveRun {
+  int executed = 0;            // top-level statements parsed and executed
+  Outcome parse_error;         // first parse error (kind OK if none)
+  Outcome runtime_error;       // first runtime error (kind OK if none)
+  std::vector<const bloc::Statement*> kept;
+  ~InteractiveRun() { for (auto s : kept) delete s; }
+};
+inline void interactive_feed(bloc::Context& ctx, bloc::Parser::StreamReader& rd, InteractiveRun& r, bool cleanup_on_runtime_error = true) {
+  bloc::Parser* p = bloc::Parser::createInteractiveParser(ctx, rd);
+  if (!p) return;
+  while (p->state() != bloc::Parser::Aborted) {
+    const bloc::Statement* s = nullptr;
+    try { s = p->parseStatement(); }
+    catch (bloc::ParseError& pe) {
+      if (pe.no == bloc::EXC_PARSE_EOF) break;
+      r.parse_error.kind = Outcome::PARSE_ERROR; r.parse_error.code = pe.no; r.parse_error.text = pe.what();
+      p->clear(); break;
+    }
+    catch (std::exception& e) { r.parse_error.kind = Outcome::FOREIGN; r.parse_error.text = std::string(typeid(e).name()) + ": " + e.what(); break; }
+    if (!s) continue;
+    r.kept.push_back(s);
+    const bloc::Statement* n = s; bool failed = false;
+    while (n) {
+      try { n = n->execute(ctx); }
+      catch (bloc::RuntimeError& re) {
+        r.runtime_error.kind = Outcome::RUNTIME_ERROR; r.runtime_error.code = re.no; r.runtime_error.text = re.what();
+        if (cleanup_on_runtime_error) ctx.onRuntimeError(); else ctx.purgeWorkingMemory();
+        failed = true; break;
+      }
+      catch (std::exception& e) { r.runtime_error.kind = Outcome::FOREIGN; r.runtime_error.text = std::string(typeid(e).name()) + ": " + e.what(); failed = true; break; }
+    }
+    if (failed) break;
+    ++r.executed;
+    if (ctx.returnCondition()) { ctx.returnCondition(false); delete ctx.dropReturned(); }
+    try { if (p->front() && p->front()->code == bloc::Parser::NewLine) p->pop(); } catch (bloc::ParseError&) { break; }
+  }
+  delete p;
+}
 } // namespace sim
